@@ -1149,7 +1149,9 @@ func TestSubgraphs(t *testing.T) {
 
 func TestDot(t *testing.T) {
 	ev.Rule(rule)
-	str := rapid.StringOfN(rapid.RuneFrom([]rune("ab \"\\\n{}<>|;,]=[-n")), 0, 8, -1)
+	// the dot language gives \\n, \\l, \\r, \\N, \\G, \\E, \\T, \\H, \\L a meaning of their own: every letter
+	// that can follow a backslash is in the alphabet, next to the characters DotString escapes
+	str := rapid.StringOfN(rapid.RuneFrom([]rune("ab \"\\\n{}<>|;,]=[-nlrNGETHLt0\t")), 0, 8, -1)
 	attr := func(rt *rapid.T) AttrSpec {
 		a := AttrSpec{Name: rapid.SampledFrom([]string{"color", "shape", "weight", "label", "tooltip"}).Draw(rt, "aname"),
 			Kind: rapid.SampledFrom([]string{"string", "int", "uint", "float", "literal"}).Draw(rt, "akind")}
